@@ -72,6 +72,12 @@ pub struct Case {
     /// object at once); otherwise every put writes bytes of its own
     #[serde(default)]
     pub same_value: bool,
+    /// how the keys are spelled (see cache.rs: 0 = k<i>, 1-3 = dotted names equal up to the last dot / one a
+    /// prefix of the other); disk: hashed sub-directories on or off
+    #[serde(default)]
+    pub key_style: u8,
+    #[serde(default)]
+    pub subdirs: bool,
 }
 
 #[derive(Clone, Debug, PartialEq)]
@@ -308,7 +314,7 @@ impl Scenario for Conc {
         "exploration"
     }
     fn rule(&self) -> &'static str {
-        "(One run in six: all puts of a key, whichever task issues them, write IDENTICAL bytes; otherwise every put writes bytes of its own.) Per run one shared MemoryCache or DiskCache, 2-3 tasks x 1-3 operations from {get, contains, put, put_with_ttl(0 = already expired), put_with_ttl(24h), remove, clear(memory only)} on 1-2 keys (every written value unique), optionally after a sequential setup that leaves an expired entry behind. Each task is a real OS thread; exactly one runs at a time and at every sched_point hook (between consecutive shared-state accesses: map get/remove/insert, counter updates, temp-file open/write/fsync/rename, index update) a seeded chooser (uniform random or PCT with 1-3 priority change points) decides who runs next. Invocations and responses are stamped with a global sequence number; a Wing-Gong/Lowe search looks for a linearization accepted by the sequential cache specification; any Err is a violation; at quiescence size()/usage must equal what a probe of every key retrieves. A third arm (tiny max_entries) exercises the eviction loops and checks values, errors and accounting only. A fourth arm shares one DynamicContainer (feature verif-hooks: its RwLocks become try-lock + yield-to-scheduler, so threads can be preempted inside save_all while holding the index lock): 2-3 tasks x 1-2 operations from {write, read, query, remove} on 1-2 encoding keys, preempted between archive write / index add / save and between create / write / fsync / rename of every index temp file; oracle: no panic, no deadlock (all unfinished tasks waiting for a lock), no error for an operation that did not overlap a mutator of the same key, reads return exactly the content written, the history extended by a sequential query+read of every key at quiescence is linearizable against a set specification, and a fresh container opened on the same directory answers exactly as the live one. Non-trivial = >= 2 state-changing ops and >= 1 context switch at a hook site; distinct = hash of (case, schedule, results)."
+        "(One run in three spells its keys with dots - obj.<i>, versions-1.15.<i>, k<i> / k<i>.idx; the disk cache has hashed sub-directories in 30 % of the runs. One run in six: all puts of a key, whichever task issues them, write IDENTICAL bytes; otherwise every put writes bytes of its own.) Per run one shared MemoryCache or DiskCache, 2-3 tasks x 1-3 operations from {get, contains, put, put_with_ttl(0 = already expired), put_with_ttl(24h), remove, clear(memory only)} on 1-2 keys (every written value unique), optionally after a sequential setup that leaves an expired entry behind. Each task is a real OS thread; exactly one runs at a time and at every sched_point hook (between consecutive shared-state accesses: map get/remove/insert, counter updates, temp-file open/write/fsync/rename, index update) a seeded chooser (uniform random or PCT with 1-3 priority change points) decides who runs next. Invocations and responses are stamped with a global sequence number; a Wing-Gong/Lowe search looks for a linearization accepted by the sequential cache specification; any Err is a violation; at quiescence size()/usage must equal what a probe of every key retrieves. A third arm (tiny max_entries) exercises the eviction loops and checks values, errors and accounting only. A fourth arm shares one DynamicContainer (feature verif-hooks: its RwLocks become try-lock + yield-to-scheduler, so threads can be preempted inside save_all while holding the index lock): 2-3 tasks x 1-2 operations from {write, read, query, remove} on 1-2 encoding keys, preempted between archive write / index add / save and between create / write / fsync / rename of every index temp file; oracle: no panic, no deadlock (all unfinished tasks waiting for a lock), no error for an operation that did not overlap a mutator of the same key, reads return exactly the content written, the history extended by a sequential query+read of every key at quiescence is linearizable against a set specification, and a fresh container opened on the same directory answers exactly as the live one. Non-trivial = >= 2 state-changing ops and >= 1 context switch at a hook site; distinct = hash of (case, schedule, results)."
     }
     fn assumptions(&self) -> Vec<&'static str> {
         vec![
@@ -383,7 +389,9 @@ impl Scenario for Conc {
         let sched_seed = rng.next_u64();
         // drawn last: one run in six lets all puts of a key carry identical bytes
         let same_value = rng.chance(1, 6);
-        Case { sut: sut.to_string(), nkeys, setup, tasks, strategy, sched_seed, schedule: None, same_value }
+        let key_style = if rng.chance(1, 3) { rng.range(1, 3) as u8 } else { 0 };
+        let subdirs = rng.chance(3, 10);
+        Case { sut: sut.to_string(), nkeys, setup, tasks, strategy, sched_seed, schedule: None, same_value, key_style, subdirs }
     }
 
     fn execute(&self, case: &Case, ctx: &mut Ctx) -> Option<Violation> {
@@ -441,7 +449,7 @@ impl Scenario for Conc {
 
 fn run(case: &Case, ctx: &mut Ctx) -> Option<Violation> {
     let nk = case.nkeys.max(1);
-    let keys: Vec<SimKey> = (0..nk).map(SimKey::n).collect();
+    let keys: Vec<SimKey> = (0..nk).map(|i| super::cache::key_name(case.key_style, i)).collect();
     if case.sut == "container" {
         return run_container(case, ctx);
     }
@@ -449,7 +457,7 @@ fn run(case: &Case, ctx: &mut Ctx) -> Option<Violation> {
     let disk = case.sut == "disk";
     let mode = if disk { Mode::Disk } else { Mode::Mem };
     let sut = if disk {
-        let cfg = DiskCacheConfig::new(ctx.root.join("cache")).with_subdirectories(false, 1);
+        let cfg = DiskCacheConfig::new(ctx.root.join("cache")).with_subdirectories(case.subdirs, 1);
         match DiskCache::<SimKey>::new(cfg) {
             Ok(c) => Sut::Disk(Arc::new(c)),
             Err(e) => panic!("harness: disk cache: {e}"),
